@@ -226,8 +226,15 @@ def _run_one_isolated(idx, shard):
     p = ctx.Process(target=target)
     p.start()
     child.close()
+    timeout = getattr(_MOD, "SHARD_TIMEOUT", 900)
     try:
-        out = parent.recv()
+        if parent.poll(timeout):
+            out = parent.recv()
+        else:
+            # the shard hangs (e.g. a loop that no longer terminates): stop it here - killing only this worker
+            # would leave the child running - and let the runner name the case
+            p.kill()
+            out = (idx, None, "isolated shard process died (hung > %d s, killed)" % timeout)
     except EOFError:
         out = (idx, None, "isolated shard process died (exit code %s)" % p.exitcode)
     p.join()
@@ -335,7 +342,7 @@ def run_shards(mod, shards, nproc=NPROC):
     total = Result()
     if not shards:
         raise HarnessError("no shards")
-    timeout = getattr(mod, "SHARD_TIMEOUT", 1500)
+    timeout = getattr(mod, "SHARD_TIMEOUT", 900)
     nproc = max(1, min(nproc, len(shards)))
     items = list(enumerate(shards))
     if getattr(mod, "SERIAL", False):
@@ -394,7 +401,7 @@ def run_shards(mod, shards, nproc=NPROC):
                 w[1] = None
             now = time.time()
             for c, w in list(workers.items()):
-                if w[1] is not None and now - w[2] > timeout:
+                if w[1] is not None and now - w[2] > timeout + 60:  # (isolated shards time out by themselves first)
                     bad.append(w[1])
                     done += 1
                     w[0].kill()
